@@ -302,13 +302,32 @@ func (m *model) afterNil(want map[string]string, crashFree bool, what string) {
 		if n == tn || n == cur {
 			continue
 		}
-		if n == tn+".new" || strings.HasSuffix(n, "-"+tn) {
+		if n == tn+".new" || isVersionOf(n, tn) {
 			extra = append(extra, n)
 		}
 	}
 	if len(extra) > 0 {
 		m.fail("leftover-after-crashfree-write", "%s returned nil in a crash-free history of one Dir, but besides the current version %s there remain: %s", what, cur, strings.Join(extra, ", "))
 	}
+}
+
+// isVersionOf reports whether the directory entry n is a version directory of
+// the target named tn: "<decimal number>-<tn>" (dir.go names them by UnixNano).
+// A sibling target "a-<tn>" and its versions "<number>-a-<tn>" are not.
+func isVersionOf(n, tn string) bool {
+	if !strings.HasSuffix(n, "-"+tn) {
+		return false
+	}
+	num := strings.TrimSuffix(n, "-"+tn)
+	if num == "" {
+		return false
+	}
+	for i := 0; i < len(num); i++ {
+		if num[i] < '0' || num[i] > '9' {
+			return false
+		}
+	}
+	return true
 }
 
 // classify names a Write call that returned an error.
@@ -351,6 +370,7 @@ type result struct {
 	steps    [3][]int // steps performed per process per Write call
 	planned  int      // crashes placed
 	fired    int      // crashes that fired
+	opSteps  []int    // scripts: steps performed per call
 	fsSteps  int64
 	nobs     int64
 	trace    []string
@@ -571,7 +591,7 @@ type tally struct {
 
 type found struct {
 	key, msg string
-	sc       Scenario
+	sc       any // Scenario or Script
 }
 
 // slot collects what one work item found, so that findings are reported in
@@ -581,7 +601,7 @@ type slot struct {
 	count map[string]int
 }
 
-func (s *slot) add(res result, sc Scenario) {
+func (s *slot) add(res result, sc any) {
 	if res.key == "" {
 		return
 	}
@@ -682,6 +702,25 @@ func run(r *enumx.Run, replay *enumx.ReplayCase) {
 	put := func(w *worker) { pool <- w }
 
 	if replay != nil {
+		var probe struct {
+			Family string `json:"family"`
+		}
+		json.Unmarshal(replay.Case, &probe)
+		if probe.Family != "" {
+			var sc Script
+			if err := json.Unmarshal(replay.Case, &sc); err != nil {
+				panic(err)
+			}
+			w := get()
+			mc.ReverseMapOrder = sc.Desc
+			defer func() { mc.ReverseMapOrder = false }()
+			res := w.execScript(sc)
+			fmt.Printf("replay %s\n  steps: %s\n", sc, strings.Join(res.trace, " "))
+			if res.key != "" {
+				r.Violation(res.key, res.msg, sc)
+			}
+			return
+		}
 		var sc Scenario
 		if err := json.Unmarshal(replay.Case, &sc); err != nil {
 			panic(err)
@@ -708,18 +747,27 @@ func run(r *enumx.Run, replay *enumx.ReplayCase) {
 		"then a fresh Dir writing every set, followed by nothing or every second set, or crashing in every distinct gap of that Write (n+1 points, both tiers) followed by a third fresh Dir writing every set), "+
 		"the whole space once with every Write creating its files in ascending name order and once in descending order (scenarios without a two-file set only once), "+
 		"executed on the real filesystem through the real dir.go with os/time substituted; the property is evaluated after every single step, after every crash and after every Write that returns. "+
-		"Step counts are measured from a completed run, so every placed crash fires. "+
+		"Round-3 families, same oracle, both orders: FAULT — one Dir, history of 1..%d Writes, one filesystem step of the last Write fails with EIO without being performed (every step index; multi-step calls stop there), "+
+		"then the failing Write alone | the same Dir writing every set then a fresh Dir writing every set | a fresh Dir writing every set | the same Dir dying in every distinct gap of its next Write (every set) then a fresh Dir writing {} or {a,b}; "+
+		"a Write hit by the fault may return the error and leave the old or the new set, every other Write must return nil and show its set. "+
+		"TARGETS — two Dirs whose targets share the parent directory, names (x,a-x), (x,x-a), (x,y), every interleaving of 1..2 Writes each over {a},{a,b}, crash-free and with a crash in every distinct gap of the last Write "+
+		"followed by two fresh Dirs (both orders); both targets are checked after every step and the leftover clause holds per target. "+
+		"MEMORY — one Dir, crash-free histories of 2..%d Writes where the caller passes fresh memory, or the previous call's map and backing arrays overwritten in place (equal or different lengths), or fresh memory with the previous contents; "+
+		"the argument must be unchanged by Write. "+
+		"Step counts are measured from a completed run, so every placed crash or fault fires. "+
 		"distinct_nontrivial is measured: a case is trivial if its first crash fires before any filesystem step was performed; two cases are the same if they have the same fingerprint "+
 		"(64-bit FNV-1a over every step executed, every observation of the target with full contents, where each crash fired, the creation order of every executed two-file Write, and the final shape of the base directory; "+
-		"whether a crash was placed 'before step k' or 'after step k-1' is not part of it, so the thorough tier's literal before/after pairs collapse).", maxLen))
+		"whether a crash was placed 'before step k' or 'after step k-1' is not part of it, so the thorough tier's literal before/after pairs collapse).", maxLen, map[bool]int{false: 2, true: 3}[r.Thorough()], map[bool]int{false: 3, true: 4}[r.Thorough()]))
 	r.Assume("crash = process death between two filesystem calls (kernel state survives, memory does not); power loss / missing fsync is not modelled and not claimed by the property")
 	r.Assume("ctime.Now is strictly increasing: two Writes never derive the same version directory name (the real clock may repeat or step back; outside the property)")
 	r.Assume("the range over the files map in Write is canonicalised by mcgen -mapsort (mc.SortedKeys) and run in both name orders; the order is uniform within a scenario " +
 		"(all Writes ascending or all descending): scenarios mixing the two orders across different Writes are not enumerated")
+	r.Assume("faults: one fault per scenario, errno EIO, the failing step is not performed (no partially performed failing step, e.g. a short write); the leftover clause is not applied to histories containing a fault")
+	r.Assume("two-target family: file sets {a},{a,b} only, at most 2 Writes per Dir before the crash; two Dirs on the SAME target alive at once are not enumerated")
 	r.Assume("a fresh Dir has no memory of the dead one (dir.New reads nothing); os.RemoveAll of a directory is modelled as one unlink per entry in name order, then rmdir")
 
 	tl := &tally{byKey: map[string]int64{}}
-	note := func(res result, sc Scenario, s *slot) {
+	note := func(res result, sc any, s *slot) {
 		nt := int64(1)
 		if res.fired != res.planned || (res.fired > 0 && res.stepsAtFirstCrash == 0) {
 			// trivial: the first crash hit before anything had been done
@@ -743,7 +791,7 @@ func run(r *enumx.Run, replay *enumx.ReplayCase) {
 		tl.fsSteps.Add(res.fsSteps)
 		tl.nobs.Add(res.nobs)
 		tl.crashes.Add(int64(res.fired))
-		for _, p := range res.steps {
+		for _, p := range [][]int{res.steps[0], res.steps[1], res.steps[2], res.opSteps} {
 			for _, n := range p {
 				for {
 					old := tl.maxSteps.Load()
@@ -754,7 +802,7 @@ func run(r *enumx.Run, replay *enumx.ReplayCase) {
 			}
 		}
 		if res.key == "" && res.fired != res.planned {
-			panic(fmt.Sprintf("c18: placed crash did not fire in %s (steps %v)", sc, res.steps))
+			panic(fmt.Sprintf("c18: placed crash/fault did not fire in %v (steps %v %v)", sc, res.steps, res.opSteps))
 		}
 		s.add(res, sc)
 	}
@@ -809,6 +857,7 @@ func run(r *enumx.Run, replay *enumx.ReplayCase) {
 			}
 		}
 		slots1 := make([]slot, len(sel))
+		bad := make([]bool, len(hists))
 		done := r.Parallel(len(sel), func(k int) {
 			w := get()
 			defer put(w)
@@ -820,6 +869,7 @@ func run(r *enumx.Run, replay *enumx.ReplayCase) {
 			if n := len(res.steps[0]); n == len(hists[i]) {
 				nlast[i] = res.steps[0][n-1]
 			}
+			bad[i] = res.key != ""
 		})
 		report(slots1)
 		if done < len(sel) {
@@ -828,7 +878,7 @@ func run(r *enumx.Run, replay *enumx.ReplayCase) {
 		}
 		aborted := 0
 		for i := range hists {
-			if nlast[i] == 0 {
+			if bad[i] {
 				aborted++
 			}
 		}
@@ -896,6 +946,16 @@ func run(r *enumx.Run, replay *enumx.ReplayCase) {
 		if !desc {
 			r.Set("first_crash_points", len(items))
 		}
+
+		// round 3: faults, two targets in one parent directory, caller memory
+		env := &scriptEnv{r: r, get: get, put: put, note: note, report: report, desc: desc, order: order}
+		faultLen, memLen := 2, 3
+		if r.Thorough() {
+			faultLen, memLen = 3, 4
+		}
+		if !env.faultFamily(hists, nlast, faultLen) || !env.targetFamily() || !env.memoryFamily(memLen) {
+			break
+		}
 	}
 	r.Set("first_crash_point_items_run_both_orders", totalItems)
 	mc.ReverseMapOrder = false
@@ -917,6 +977,18 @@ func run(r *enumx.Run, replay *enumx.ReplayCase) {
 		r.Sample(map[string]any{"scenario": sc, "steps": strings.Join(res.trace, " "), "observations": res.nobs, "verdict": verdict})
 	}
 	mc.ReverseMapOrder = false
+	for _, sc := range []Script{
+		{Family: "fault", Targets: []string{"tgt"}, Dirs: []int{0, 0}, Ops: []Op{{D: 0, Set: 1}, {D: 0, Set: 2, Fault: ip(11)}, {D: 0, Set: 3}, {D: 1, Set: 0}}},
+		{Family: "targets", Targets: []string{"x", "a-x"}, Dirs: []int{0, 1, 0, 1}, Ops: []Op{{D: 1, Set: 2}, {D: 0, Set: 1}, {D: 0, Set: 2, Crash: &Crash{9, true}}, {D: 3, Set: 1}, {D: 2, Set: 1}}},
+		{Family: "memory", Targets: []string{"tgt"}, Dirs: []int{0}, Ops: []Op{{D: 0, Set: 2}, {D: 0, Set: 2, Mem: "inplace"}, {D: 0, Set: 3, Mem: "relen"}}},
+	} {
+		res := w.execScript(sc)
+		verdict := "holds"
+		if res.key != "" {
+			verdict = "VIOLATION " + res.key
+		}
+		r.Sample(map[string]any{"script": sc, "steps": strings.Join(res.trace, " "), "observations": res.nobs, "verdict": verdict})
+	}
 	put(w)
 	finish(r, tl)
 }
